@@ -126,8 +126,9 @@ def val_py(v, n):
   if 'nd' in v:
     if v['nd'] == 2:
       rows = v.get('rows', n)
-      return [[1 + i, 1, 0] for i in range(rows)] if not v.get('_alt') else [[2, 1 + i, 0] for i in range(rows)]
-    return {0: 5, 1: [1, 1, 0] if not v.get('_alt') else [3, 2, 0], 3: [[[1]]]}[v['nd']]
+      # (non-integer coefficients: a coercion to int must show in the reported values)
+      return [[0.5 + i, 1.5, 0] for i in range(rows)] if not v.get('_alt') else [[2.25, 0.75 + i, 0] for i in range(rows)]
+    return {0: 5, 1: [0.5, 1.5, 0] if not v.get('_alt') else [3.25, 2.5, 0], 3: [[[1]]]}[v['nd']]
   if 'b' in v:
     return to_py(v['b'])
   if 'cb' in v:
@@ -251,12 +252,27 @@ def mk_devices(lens):
   return [dk().Device('d%d' % i, l, (0, 1)) for i, l in enumerate(lens)]
 
 
+def doc_id_ok(ident):
+  """the documented DeviceSet id pattern '^[a-z0-9][a-z0-9_-]*$' (case-insensitive), spelt out without `re`."""
+  if not isinstance(ident, str):
+    return None
+  alnum = 'abcdefghijklmnopqrstuvwxyzABCDEFGHIJKLMNOPQRSTUVWXYZ0123456789'
+  return len(ident) >= 1 and ident[0] in alnum and all(ch in alnum + '_-' for ch in ident[1:])
+
+
+SET_IDS = ['set1', 'bad id', 7, 'a.b', 'a+b', 'Ab-C_9', 'A', '9', '-a', '_a', '', 'a/b', 'a(1)', 'a[0]', 'x.', 'a b', ' a', 'home.kitchen']
+
+
+def set_id(case):
+  return case['id'] if 'id' in case else {True: 'set1', False: 'bad id', None: 7}[case['idok']]
+
+
 def run_set(case):
   k = case['kind']
   n_ = np()
   if k == 'deviceset':
     nmax = case['nmax']
-    ident = {True: 'set1', False: 'bad id', None: 7}[case['idok']]
+    ident = set_id(case)
     try:
       ds = dk().DeviceSet(ident, mk_devices(case['lens']), None if case.get('sb') is None else to_py(case['sb']))
     except Exception as e:
@@ -402,24 +418,97 @@ def enum_cbounds(n):
 
 
 EPS = Fraction(1, 2**30)   # a neighbour below 1e-6 (exact in binary floating point next to every threshold used here)
+EPS2 = Fraction(1, 2**43)  # ~1.1e-13: below any 1e-12 slack; |t| <= 2 keeps t +- 2^-43 exact in a double
 
 
 def thr(t, both=True):
   t = Fraction(t)
-  return [C.fs(t - D), C.fs(t - EPS), C.fs(t), C.fs(t + EPS), C.fs(t + D)]
+  return [C.fs(t - D), C.fs(t - EPS), C.fs(t - EPS2), C.fs(t), C.fs(t + EPS2), C.fs(t + EPS), C.fs(t + D)]
 
 
 def fine_bounds(n):
   """low/high pairs that differ by less than 1e-6: `low = high + 2^-30` must be rejected, `low = high - 2^-30` accepted."""
   out = []
   for x in (Fraction(0), Fraction(1), Fraction(-1)):
-    for d in (EPS, -EPS, Fraction(0)):
+    for d in (EPS, -EPS, EPS2, -EPS2, Fraction(0)):
       lo, hi = C.fs(x + d), C.fs(x)
       out += [T(lo, hi), L(L(*[lo]*n), L(*[hi]*n)), L(*[L(lo, hi)]*n), L(L(*[lo]*n), hi), L(lo, L(*[hi]*n))]
       for i in range(n):
         v = [hi]*n; v[i] = lo
         out += [L(L(*v), L(*[hi]*n)), L(*[L(v[j], hi) for j in range(n)])]
   return out
+
+
+def fl(x):
+  """the exact rational value of the double nearest to the decimal x (so that the model sees what the library sees)."""
+  return C.fs(Fraction(float(x)))
+
+
+def enum_cbounds_fine():
+  """cumulative bounds whose attainability is decided by less than 1e-6: dyadic gaps 2^-23, 2^-43 and decimal slot bounds."""
+  cs = []
+  for e in (Fraction(1, 2**23), EPS2):
+    lb, hb = ['1/2', C.fs(Fraction(1, 2) + 2*e)], ['1', C.fs(1 + 2*e)]         # sum lb = 1 + 2e, sum hb = 2 + 2e
+    specs = []
+    for h in (1 + e, 1 + 2*e, 1 + 3*e):                                       # high just below / at / above the smallest possible sum
+      specs += [{'p': ['0', C.fs(h)]}, {'i': [['0', C.fs(h), '0', '2']]}]
+    for l in (2 + e, 2 + 2*e, 2 + 3*e):                                       # low just below / at / above the largest possible sum
+      specs += [{'p': [C.fs(l), '3']}, {'i': [[C.fs(l), '3', '0', '2']]}]
+    for l, h in ((1, 1 + e), (1 + e, 1), (1, 1)):                             # low < high by a hair / reversed by a hair / equal
+      specs += [{'p': [C.fs(Fraction(3, 2) + l - 1), C.fs(Fraction(3, 2) + h - 1)]}]
+    cs.append({'k': 'cbounds', 'n': 2, 'lb': lb, 'hb': hb, 'specs': specs})
+  # decimal slot bounds (as the doubles the library sees): sum lb = 1.0000012, sum hb = 2.9999988
+  lb, hb = [fl('0.4000004'), fl('0.6000008')], [fl('1.4999994'), fl('1.4999994')]
+  specs = [{'p': ['0', fl(h)]} for h in ('1.000001', '1.0000011', '1.0000013', '1.000002')] + \
+          [{'p': [fl(l), '4']} for l in ('2.999998', '2.9999987', '2.9999989', '2.999999')] + \
+          [{'i': [['0', fl('1.000001'), '0', '2']]}, {'i': [['0', fl('0.4000003'), '0', '1']]}, {'i': [['0', fl('0.4000005'), '0', '1']]}]
+  cs.append({'k': 'cbounds', 'n': 2, 'lb': lb, 'hb': hb, 'specs': specs})
+  return cs
+
+
+def enum_large(n):
+  """a horizon beyond any 'first 24 slots' shortcut: faults, and reported ranges, that sit in the LAST slot."""
+  cs = []
+  z, o = ['0']*n, ['1']*n
+  last = lambda base, x: base[:-1] + [x]
+  vs = [T('0', '1'), L(L(*z), L(*o)), L(*[L('0', '1')]*n), L(L(*o)), L(L(*z), L(*last(o, '7'))),               # accepted (the last slot differs)
+        L(L(*last(z, '2')), L(*o)), L(*last([L('0', '1')]*n, L('2', '1'))), L(L(*last(z, '2')), '1'), L('1', L(*last(o, '0'))),   # low > high in the last slot only
+        L(L(*last(z, C.fs(1 + EPS2))), L(*o)), L(*last([L('0', '1')]*n, L(None, '1'))),
+        L(L(*z[:-1]), L(*o)), L(L(*z), L(*(o + ['1']))), L(*[L('0', '1')]*(n - 1)), L(*[L('0', '1')]*(n + 1))]             # one slot short / long
+  gen = [T('-1', '0'), L('-1', L(*last(z, C.fs(EPS2)))), L(L(*['-1']*n), L(*last(z, '1'))), L(*last([L('-1', '0')]*n, L('-1', C.fs(EPS))))]
+  for level in ('raw', 'device'):
+    cs.append({'k': 'bounds', 'n': n, 'level': level, 'vs': vs})
+  cs.append({'k': 'bounds', 'n': n, 'level': 'gen', 'vs': gen + [L(L(*last(['-1']*n, '1')), L(*z))]})
+  N, h = str(n), Fraction(1, 2)
+  specs = [{'p': ['1', '2']}, {'p': [C.fs(n - h), str(n + 1)]}, {'p': [str(n + 1), str(n + 2)]}, {'i': [['0', '1', str(n - 1), N]]}, {'i': [['1/2', '1', str(n - 1), N]]},
+           {'i': [['0', '1', '0', N]]}, {'i': [['0', '1', '24', N]]}, {'i': [['0', '1', '0', str(n + 1)]]}, {'i': [['0', '1', N, N]]},
+           {'i': [['0', '1', '0', '24'], ['0', '1', '24', N]]}, {'i': [['3/2', '2', str(n - 1), N]]}, {'i': [[C.fs(24 + h), '30', '0', N]]}]
+  cs.append({'k': 'cbounds', 'n': n, 'lb': z, 'hb': o, 'specs': specs})
+  cs.append({'k': 'cbounds', 'n': n, 'lb': last(z, '5'), 'hb': last(o, '5'),      # the last slot alone makes (0, 4) unattainable and (0, 5) attainable
+             'specs': [{'p': ['0', '4']}, {'p': ['0', '5']}, {'p': ['-1', C.fs(5 - EPS2)]}, {'i': [['0', '4', '0', '24']]}, {'i': [['4', '9/2', str(n - 1), N]]}]})
+  def ctor(cls, kw, b=None, cb=None, sets=None):
+    c = {'k': 'ctor', 'cls': cls, 'n': n, 'b': b if b is not None else (T('-1', '0') if cls in GEN_CLASSES else T('0', '1')), 'cb': cb, 'kw': [list(x) for x in kw]}
+    if sets: c['sets'] = [list(x) for x in sets]
+    cs.append(c)
+  for cls in CLASSES:
+    kw0 = [('cost_coeffs', {'nd': 1, 'rows': n})] if cls == 'GDevice' else []
+    ctor(cls, kw0, cb={'p': ['-1/2', '-1/4'] if cls in GEN_CLASSES else ['1/4', '1/2']})           # the 2-tuple must be reported as (l, h, 0, n)
+    ctor(cls, kw0, b=L(L(*last(['-1']*n, '2')), L(*o)) if cls not in GEN_CLASSES else L(L(*last(['-2']*n, '1')), L(*z)))
+  ctor('IDevice', [('a', last(o, C.fs(-EPS2)))]); ctor('IDevice', [('c', last(o, '5/2'))]); ctor('IDevice', [('b', last(o, '0'))]); ctor('IDevice', [('a', o[:-1])])
+  ctor('IDevice2', [('p_l', last(['-2']*n, '-1/2')), ('p_h', ['-1']*n)]); ctor('IDevice2', [('p_l', ['-2']*n), ('p_h', last(['-1']*n, '-1/4'))])
+  ctor('IDevice2', [('p_h', last(['-1']*n, C.fs(EPS2)))])
+  ctor('GDevice', [('cost_coeffs', {'nd': 2, 'rows': n})]); ctor('GDevice', [('cost_coeffs', {'nd': 2, 'rows': n - 1})]); ctor('GDevice', [('cost_coeffs', {'nd': 2, 'rows': 24})])
+  ctor('SDevice', [('c1', '2'), ('c2', '1/2'), ('efficiency', '3/4')], b=T('-1', '1'), sets=[('cbounds', {'cb': {'p': ['-1/2', '1/2']}}), ('cbounds', {'cb': {'i': [['0', '1', '24', N]]}})])
+  cs.append({'k': 'set', 'kind': 'deviceset', 'lens': [n, n], 'id': 'set1', 'idok': True, 'sb': L(L(*last(z, '2')), L(*o)), 'nmax': n})
+  cs.append({'k': 'set', 'kind': 'deviceset', 'lens': [n, n], 'id': 'set1', 'idok': True, 'sb': L(L(*z), L(*last(o, '7'))), 'nmax': n})
+  cs.append({'k': 'set', 'kind': 'deviceset', 'lens': [n, n - 1], 'id': 'set1', 'idok': True, 'sb': None, 'nmax': n})
+  cs.append({'k': 'set', 'kind': 'mf', 'n': n, 'nflows': 2, 'lb': ['-1'] + z[1:], 'hb': last(z, '1')})
+  cs.append({'k': 'set', 'kind': 'mf', 'n': n, 'nflows': 2, 'lb': z, 'hb': last(z, '1')})
+  td = {'k': 'set', 'kind': 'tdevice', 'n': n, 'b': T('0', '1'), 'cb': {'p': ['1/4', '1/2']}, 'sustainment': '1/2', 'efficiency': '3/4', 't_range': '2',
+        't_init': '37/2', 't_optimal': '85/4', 't_external': [C.fs(Fraction(10 + i) + Fraction(1, 4)) for i in range(n)], 'c': last(o, '5/2')}
+  cs.append(td)
+  cs.append(dict(td, c=last(o, C.fs(-EPS2)))); cs.append(dict(td, t_external=td['t_external'][:-1]))
+  return cs
 
 
 def enum_params(ns):
@@ -555,8 +644,8 @@ def enum_sets(ns):
   nmax = max(ns) + 1
   for k in range(0, 4):
     for lens in itertools.product([1, 2, 3], repeat=k):
-      for idok in (True, False, None):
-        cs.append({'k': 'set', 'kind': 'deviceset', 'lens': list(lens), 'idok': idok, 'sb': None, 'nmax': nmax})
+      for ident in (SET_IDS if len(lens) == 1 and lens[0] == 2 else SET_IDS[:3]):
+        cs.append({'k': 'set', 'kind': 'deviceset', 'lens': list(lens), 'id': ident, 'idok': doc_id_ok(ident), 'sb': None, 'nmax': nmax})
   for n in ns:
     for sb in bounds_forms_small(n) + [L(L(*['0']*(n + 1))), L(L(*['0']*(n + 1)), L(*['1']*(n + 1)))]:
       if sb is not None:
@@ -567,13 +656,19 @@ def enum_sets(ns):
         cs.append({'k': 'set', 'kind': 'mf', 'n': n, 'nflows': nf, 'lb': [lo]*n, 'hb': [hi]*n})
       if n >= 2:
         cs.append({'k': 'set', 'kind': 'mf', 'n': n, 'nflows': nf, 'lb': ['-1'] + ['0']*(n - 1), 'hb': ['0']*(n - 1) + ['1']})
+      if nf == 2:       # two-way by less than any dead band
+        for e1 in (EPS, EPS2):
+          for e2 in (EPS, EPS2, Fraction(1)):
+            cs.append({'k': 'set', 'kind': 'mf', 'n': n, 'nflows': nf, 'lb': [C.fs(-e1)] + ['0']*(n - 1), 'hb': ['0']*(n - 1) + [C.fs(e2)]})
+            cs.append({'k': 'set', 'kind': 'mf', 'n': n, 'nflows': nf, 'lb': [C.fs(-e1)]*n, 'hb': ['0']*n})
+            cs.append({'k': 'set', 'kind': 'mf', 'n': n, 'nflows': nf, 'lb': ['0']*n, 'hb': [C.fs(e2)]*n})
       for rlen in (None, 1, 2, 3):
         for ctok in (True, False):
           cs.append({'k': 'set', 'kind': 'tworatio', 'n': n, 'nflows': nf, 'lb': ['0']*n, 'hb': ['1']*n, 'rlen': rlen, 'ctok': ctok})
       cs.append({'k': 'set', 'kind': 'tworatio', 'n': n, 'nflows': nf, 'lb': ['-1']*n, 'hb': ['1']*n, 'rlen': 2, 'ctok': True})
     def td(**kw):
       c = {'k': 'set', 'kind': 'tdevice', 'n': n, 'b': T('0', '1'), 'cb': None, 'sustainment': '1/2', 'efficiency': '3/4', 't_range': '2',
-           't_init': '18', 't_optimal': '21', 't_external': [str(10 + i) for i in range(n)], 'c': '3/2'}
+           't_init': '37/2', 't_optimal': '85/4', 't_external': [C.fs(Fraction(10 + i) + Fraction(1, 4)) for i in range(n)], 'c': '3/2'}   # non-integers: int()/round() must show
       c.update(kw); cs.append(c)
     for x in thr(0) + thr(1): td(sustainment=x)
     for x in thr(0): td(efficiency=x); td(t_range=x); td(c=x)
@@ -833,7 +928,9 @@ def reported_matches(dev, cls, n, f, v):
     want = (None, None) if v is None else (tuple(v['op']) if isinstance(v, dict) else (v, v))
     return all((a is None and b is None) or (a is not None and b is not None and float(Fraction(a)) == float(b)) for a, b in zip(want, got))
   if f == 'cost_coeffs':
-    return n_.array(got).ndim == v['nd']
+    want = n_.array(val_py(v, n), dtype=float)          # the VALUES, not just the dimensionality
+    g = n_.array(got, dtype=float)
+    return g.shape == want.shape and bool(n_.all(g == want))
   want = n_.array([float(x) for x in fr(v)]) if isinstance(v, list) else float(fr(v))
   try:
     return bool(n_.all(n_.array(got, dtype=float) == want)) and n_.array(got).shape == n_.array(want).shape
@@ -889,6 +986,22 @@ class C11(Prop):
     self._t1 = TV.regenerate(C.REPO)
     return True
 
+  NAN_PROBES = [('SDevice', f) for f in ('c1', 'c2', 'c3', 'capacity', 'start', 'reserve', 'damage_depth', 'efficiency', 'sustainment', 'rate_clip')] + \
+               [('IDevice', f) for f in 'abc'] + [(c, f) for c in ('IDevice2', 'CDevice2') for f in ('p_l', 'p_h')] + [('CDevice', 'a')] + \
+               [('Device', 'bounds-low'), ('Device', 'bounds-high'), ('PVDevice', 'bounds-high'), ('Device', 'cbounds-low'), ('Device', 'cbounds-high')] + \
+               [('TDevice', f) for f in ('sustainment', 'efficiency', 't_range', 'c')]
+
+  def corpus(self):
+    """deterministic witnesses outside the modelled value space (no NaN, no machine integer types in `PyVal` / `XRat`):
+    unsigned-integer bounds arrays whose `high - low` wraps around, and NaN for every validated parameter."""
+    cs = []
+    for dt in ('uint8', 'uint16', 'uint32', 'uint64', 'int8', 'int64', 'float32'):
+      for form in ('table', 'pair'):
+        cs.append({'k': 'probe', 'what': 'dtype', 'n': 3, 'v': {'dtype': dt, 'form': form}})   # (n = 3: at n = 2 the pair form is itself a table)
+    for cls, f in self.NAN_PROBES:
+      cs.append({'k': 'probe', 'what': 'nan', 'n': 2, 'v': {'cls': cls, 'param': f}})
+    return cs
+
   def ns(self, tier):
     return [1, 2, 3, 4, 5] if tier == 'thorough' else [1, 2, 3]
 
@@ -903,7 +1016,7 @@ class C11(Prop):
       vs = enum_bounds(n, tier)
       enumerated['bounds n=%d' % n] = len(vs)
       batches('bounds', n, 'raw', vs)
-      batches('bounds', n, 'device', vs if (tier == 'thorough' or n <= 2) else vs[::3])
+      batches('bounds', n, 'device', vs if (tier == 'thorough' or n <= 1) else vs[::3])   # (differs from the raw level only by HyperCube's width check)
       ks = kinds_bounds(n) + fine_bounds(n)
       enumerated['container kinds + sub-1e-6 low/high pairs n=%d' % n] = len(ks)
       for level in ('raw', 'device', 'gen'):
@@ -921,6 +1034,9 @@ class C11(Prop):
       for deep in [L(L(*[L('0', '1')]*n), L(*[L('2', '3')]*n)), L(L(*[L('0', '1')]*n)), L(L(*[L('0', '1', '2')]*n), L(*[L('2', '3', '4')]*n))]:
         cs.append({'k': 'probe', 'what': 'deep', 'n': n, 'v': deep})
       cs.append({'k': 'probe', 'what': 'float-index', 'n': n, 'v': None})
+    fc = enum_cbounds_fine(); enumerated['cbounds decided by < 1e-6 (dyadic 2^-23, 2^-43; decimal slot bounds)'] = sum(len(c['specs']) for c in fc); cs += fc
+    for n in ((25, 31) if tier == 'thorough' else (25,)):
+      lc = enum_large(n); enumerated['horizon %d (faults / reported ranges in the last slot)' % n] = len(lc); cs += lc
     small = [n for n in ns if n <= 3]
     pc = enum_params(small); enumerated['parameter thresholds'] = len(pc); cs += pc
     cf = enum_class_forms(small); enumerated['class x form x cbounds'] = len(cf); cs += cf
@@ -983,7 +1099,9 @@ class C11(Prop):
 
   # ------------------------------------------------------------ oracle
   def note(self, what, example):
-    o = self._obs.setdefault(what, {'count': 0, 'example': example})
+    if what not in self._obs:
+      self._obs[what] = {'count': 0, 'example': str(example)}
+    o = self._obs[what]
     o['count'] += 1
 
   def stat(self, what):
@@ -1123,6 +1241,40 @@ class C11(Prop):
   def oracle_probe(self, case, fail):
     """inputs outside the modelled fragment (strings; nesting depth 3): every one of them is ill-formed."""
     n, what = case['n'], case['what']
+    if what == 'dtype':
+      # low = 2 > high = 1 in every slot, held in a numpy array of a machine type: unsigned `high - low` wraps to a large positive number
+      n_ = np(); dt, form = case['v']['dtype'], case['v']['form']
+      mk = (lambda: n_.array([[2, 1]]*n, dtype=dt)) if form == 'table' else (lambda: (n_.array([2]*n, dtype=dt), n_.array([1]*n, dtype=dt)))
+      for where, f in (('Device', lambda: dk().Device('d', n, mk())), ('validate_bounds', lambda: stub(n).validate_bounds(mk())),
+                       ('DeviceSet.sbounds', lambda: dk().DeviceSet('set1', mk_devices([n]), mk()))):
+        self._inputs += 1
+        try:
+          f()
+        except Exception:
+          continue
+        fail({'where': where, 'kind': 'ill-formed-accepted', 'sub': 'unsigned-wraparound'},
+             '%s with len(device)=%d given bounds=%s of dtype %s (low 2 > high 1 in every slot): ACCEPTED' % (where, n, 'np.array([[2,1]]*%d)' % n if form == 'table' else '(np.array([2]*%d), np.array([1]*%d))' % (n, n), dt))
+      return
+    if what == 'nan':
+      cls, f = case['v']['cls'], case['v']['param']
+      nan = float('nan'); D_ = dk()
+      if cls == 'TDevice':
+        a = {'sustainment': 0.5, 'efficiency': 0.75, 't_init': 18.5, 't_optimal': 21.25, 't_range': 2.0, 'c': 1.5}; a[f] = nan
+        mk = lambda: D_.TDevice('t', n, (0, 1), a['sustainment'], a['efficiency'], a['t_init'], a['t_optimal'], a['t_range'], [10.25]*n, c=a['c'])
+      elif f == 'bounds-low': mk = lambda: getattr(D_, cls)('d', n, (nan, 0))
+      elif f == 'bounds-high': mk = lambda: getattr(D_, cls)('d', n, (-1, nan))
+      elif f == 'cbounds-low': mk = lambda: D_.Device('d', n, (0, 1), (nan, 1))
+      elif f == 'cbounds-high': mk = lambda: D_.Device('d', n, (0, 1), (0, nan))
+      elif cls == 'CDevice2': mk = lambda: D_.CDevice2('d', n, (0, 1), None, **{f: nan})
+      else: mk = lambda: getattr(D_, cls)('d', n, (-1, 1) if cls == 'SDevice' else (0, 1), **{f: nan})
+      self._inputs += 1
+      try:
+        mk()
+      except Exception:
+        return
+      fail({'kind': 'ill-formed-accepted', 'sub': 'nan', 'cls': cls, 'param': cls + '.' + f},
+           '%s(..., %s=nan): ACCEPTED — NaN is outside every documented range (a guard of the form `if x < 0: raise` lets it through)' % (cls, f))
+      return
     if what == 'float-index':
       # float slot indices pass the range test and die at the slice: a type confusion, any exception rejects it; the state must survive
       dev = dk().Device('d', n, (0, 1)); dev.cbounds = (0.25*n, 0.5*n); prev = list(dev.cbounds)
@@ -1153,10 +1305,12 @@ class C11(Prop):
       fail({'where': where, 'kind': 'ill-formed-accepted', 'sub': 'deep-nesting' if what == 'deep' else 'string'},
            '%s: ACCEPTED (an array of shape %s is stored) although it is no documented form: ValueError expected' % (show, np().array(got).shape))
 
-  def judge_bounds(self, where, n, v, res, fail, cls=None):
+  def judge_bounds(self, where, n, v, res, fail, cls=None, ref=None):
     """compare one outcome of the implementation with the documented grammar."""
-    ref = ref_bounds(v, n)
-    show = '%s with len(device)=%d given bounds=%r' % (where, n, to_py(v))
+    ref = ref or ref_bounds(v, n)
+    class _Show:                                   # built only when a failure is reported
+      def __str__(self_): return '%s with len(device)=%d given bounds=%r' % (where, n, to_py(v))
+    show = _Show()
     base = {'where': where}
     if cls:
       base['cls'] = cls
@@ -1199,14 +1353,19 @@ class C11(Prop):
   def oracle_bounds(self, case, fail):
     n, level = case['n'], case['level']
     where = {'raw': 'validate_bounds', 'device': 'Device', 'gen': 'PVDevice'}[level]
-    for v in case['vs']:
+    verdicts = set()
+    for k_, v in enumerate(case['vs']):
       py = to_py(v)
-      keep = copy.deepcopy(py)
+      watch = k_ % 3 == 0                            # the caller's object must come back unchanged (checked on every third input)
+      keep = copy.deepcopy(py) if watch else None
       res = run_bounds(level, n, py)
-      if not deep_eq(py, keep):
+      ref0 = ref_bounds(v, n)
+      verdicts.add(ref0[0] != 'ill')
+      case['_mixed'] = verdicts == {True, False}
+      if watch and not deep_eq(py, keep):
         fail({'where': where, 'kind': 'mutated-caller-object'}, '%s with len(device)=%d: the caller\'s object %r was changed to %r' % (where, n, keep, py))
       if level == 'gen':
-        ref = ref_bounds(v, n)
+        ref = ref0
         if ref[0] in ('table', 'lenient') and all(y is not None for r in ref[1] for y in r) and any(Fraction(r[1]) > 0 for r in ref[1]):
           # a generator that may consume: must be a ValueError
           if res[0] == 'ok':
@@ -1214,7 +1373,7 @@ class C11(Prop):
           elif not isinstance(res[1], ValueError):
             fail({'where': where, 'kind': 'wrong-exception-type', 'exc': type(res[1]).__name__, 'cause': 'positive-hbound'}, '%s n=%d bounds=%r' % (where, n, py))
           continue
-      self.judge_bounds(where, n, v, res, fail)
+      self.judge_bounds(where, n, v, res, fail, ref=ref0)
 
   def oracle_cbounds(self, case, fail):
     n = case['n']
@@ -1417,7 +1576,7 @@ class C11(Prop):
         fail({'where': kind, 'kind': 'valid-rejected', 'exc': name}, '%s: raised %s although it is well-formed' % (show, name))
     if kind == 'deviceset':
       lens = case['lens']
-      show = 'DeviceSet(id=%r, devices of lengths %s, sbounds=%r)' % ({True: 'set1', False: 'bad id', None: 7}[case['idok']], lens, None if case['sb'] is None else to_py(case['sb']))
+      show = 'DeviceSet(id=%r, devices of lengths %s, sbounds=%r)' % (set_id(case), lens, None if case['sb'] is None else to_py(case['sb']))
       if not lens:
         return expect(True, 'there is no device', show, 'no-devices')
       if len(set(lens)) > 1:
@@ -1429,6 +1588,13 @@ class C11(Prop):
       if case['sb'] is None:
         return expect(False, '', show, '')
       n = lens[0]
+      if code == 0 and res[1] == 1:                   # accepted, but the set holds no aggregate bound at all
+        ref = ref_bounds(case['sb'], n)
+        if ref[0] == 'ill':
+          fail({'where': 'DeviceSet.sbounds', 'kind': 'ill-formed-accepted', 'sub': ref[1]}, '%s: ACCEPTED (sbounds is None afterwards) although the specification is ill-formed (%s)' % (show, ref[1]))
+        elif not has_none(case['sb']):
+          fail({'where': 'DeviceSet.sbounds', 'kind': 'sbounds-not-reported'}, '%s: accepted, but the set reports sbounds=None' % show)
+        return
       if code == 0:
         rows = [(None if math.isnan(res[2 + 2*i]) else res[2 + 2*i], None if math.isnan(res[3 + 2*i]) else res[3 + 2*i]) for i in range(n)]
         w = int(np().array(dk().DeviceSet('set1', mk_devices(lens), to_py(case['sb'])).sbounds).shape[1])
@@ -1515,6 +1681,8 @@ class C11(Prop):
     set-level cases with at least one device / flow; setter-history twins.  Shape probes and oracle-only probes do not count."""
     k = case['k']
     if k == 'bounds':
+      if '_mixed' in case:
+        return case['_mixed']
       verdicts = {ref_bounds(v, case['n'])[0] != 'ill' for v in case['vs']}
       return verdicts == {True, False}
     if k == 'cbounds':
